@@ -4,6 +4,7 @@ import (
 	"fmt"
 	"go/token"
 	"go/types"
+	"strings"
 
 	"golang.org/x/tools/go/ssa"
 )
@@ -197,4 +198,198 @@ func ruleWalkPanic(p *Prog, r *Report) {
 		}
 	}
 	r.OK("WALKPANIC", "isobmff | box handlers reachable from ReadMetadata", p.posStr(root.Pos()), fmt.Sprintf("%d functions scanned, %d slice-to-array conversions, each an obligation of its own", nf, nconv))
+}
+
+// CURSOR (C06, C11): a loop over the records of a box moves the cursor on every iteration.
+//
+// Instances: in package isobmff, every loop that has a unit-step counter and, besides it, an integer variable
+// carried around the loop that some path through the body increases (the cursor into the peeked box payload). If
+// another path through the body leaves that variable as it was - the record is examined only when `j == 0`, say -
+// the records that take that path are not stepped over, and everything behind them in the box is read at the
+// wrong place: an item with two extents in front of the Exif item makes the Exif item's location garbage.
+func ruleCursor(p *Prog, r *Report) {
+	r.Explain("CURSOR: in package isobmff, in every counted loop (a unit-step counter) that carries a second integer variable which some path through the body increases, no path through the body leaves that variable unchanged: a record loop that advances its cursor for the first record only reads every later record of the box at the wrong offset.")
+	pk := p.SSAPkg("isobmff")
+	if pk == nil {
+		r.Fatal("unresolved anchor: package isobmff")
+		return
+	}
+	n := 0
+	for _, f := range p.AllLibFns() {
+		if f.Pkg != pk || f.Blocks == nil {
+			continue
+		}
+		for _, l := range findLoops(f) {
+			// a unit-step counter at the loop head
+			hasCounter := false
+			var phis []*ssa.Phi
+			for _, in := range l.Head.Instrs {
+				ph, ok := in.(*ssa.Phi)
+				if !ok {
+					break
+				}
+				phis = append(phis, ph)
+				if ind, ok := inductionOf(ph); ok && ind.Step == 1 {
+					hasCounter = true
+				}
+			}
+			if !hasCounter {
+				continue
+			}
+			for _, ph := range phis {
+				if !isIntType(ph.Type()) {
+					continue
+				}
+				if ind, ok := inductionOf(ph); ok && ind.Step != 0 {
+					continue // a counter itself
+				}
+				// back-edge values: increased on some path, unchanged on another?
+				inc, same := false, false
+				var walk func(v ssa.Value, d int)
+				seen := map[ssa.Value]bool{}
+				walk = func(v ssa.Value, d int) {
+					if d > 8 || seen[v] {
+						return
+					}
+					seen[v] = true
+					if v == ssa.Value(ph) {
+						same = true
+						return
+					}
+					switch x := v.(type) {
+					case *ssa.Phi:
+						if l.Blocks[x.Block()] {
+							for _, e := range x.Edges {
+								walk(e, d+1)
+							}
+						}
+					case *ssa.BinOp:
+						if x.Op == token.ADD {
+							a := affineOf(x, 0)
+							if a.coef(ph) == 1 {
+								inc = true
+							}
+						}
+					}
+				}
+				for i, e := range ph.Edges {
+					if l.Blocks[l.Head.Preds[i]] {
+						walk(e, 0)
+					}
+				}
+				if !inc {
+					continue
+				}
+				// a cursor into the payload: the variable (or a sum with it) indexes or slices a byte slice
+				intoBytes := false
+				var uses func(v ssa.Value, d int)
+				seenU := map[ssa.Value]bool{}
+				uses = func(v ssa.Value, d int) {
+					if d > 3 || seenU[v] {
+						return
+					}
+					seenU[v] = true
+					for _, rf := range refs(v) {
+						switch x := rf.(type) {
+						case *ssa.Slice:
+							if typeStr(x.X.Type()) == "[]byte" && (x.Low == v || x.High == v) {
+								intoBytes = true
+							}
+						case *ssa.IndexAddr:
+							if typeStr(x.X.Type()) == "[]byte" && x.Index == v {
+								intoBytes = true
+							}
+						case *ssa.BinOp:
+							if x.Op == token.ADD {
+								uses(x, d+1)
+							}
+						case *ssa.Phi:
+							uses(x, d+1)
+						}
+					}
+				}
+				uses(ph, 0)
+				if !intoBytes {
+					continue
+				}
+				n++
+				key := fmt.Sprintf("%s | cursor %s of a counted record loop", fnName(f), shortVal(ph))
+				at := p.posStr(ph.Pos())
+				if same {
+					r.Bad("CURSOR", key, at, "some path through the loop body advances the cursor and another leaves it where it was: the records that take the second path are not stepped over, and every later record of the box is read at the wrong offset")
+				} else {
+					r.OK("CURSOR", key, at, "advanced on every path through the body")
+				}
+			}
+		}
+	}
+	r.Extra("cursor_loops", n)
+}
+
+// TOPWALK / HEIFSCAN (C06): how the entry points find the payload inside an ISOBMFF file.
+//
+// TOPWALK: every function of the root package that calls (*isobmff.Reader).ReadMetadata does so in a loop over the
+// top-level boxes, not a fixed number of times: with one call after ReadFTYP the payload is found only when the box
+// that carries it is the first one, so a free box in front of moov - mere container content - costs a CR3 all its
+// metadata. HEIFSCAN: no entry point hands an ISOBMFF image type to tiff.ScanTiffHeader: the search for a TIFF
+// signature runs over the whole container, and the four bytes II*\0 or MM\0* in any earlier box are taken for the
+// header.
+func ruleTopWalk(p *Prog, r *Report) {
+	r.Explain("TOPWALK: each function of the root package that calls (*isobmff.Reader).ReadMetadata calls it inside a loop (it walks the top-level boxes until the payload or the end), not a fixed number of times. HEIFSCAN: no function of the root package passes the HEIF image type (directly, or by delegating a HEIF entry point to the TIFF one) to tiff.ScanTiffHeader, whose signature search would run over unrelated boxes.")
+	root := p.SSAPkg("")
+	if root == nil {
+		r.Fatal("unresolved anchor: root package")
+		return
+	}
+	n := 0
+	for _, f := range p.AllLibFns() {
+		if f.Pkg != root || f.Blocks == nil {
+			continue
+		}
+		calls, inLoop := 0, 0
+		eachCall(f, func(site ssa.CallInstruction) {
+			sc := site.Common().StaticCallee()
+			if sc == nil || fnName(sc) != "isobmff.(*Reader).ReadMetadata" {
+				return
+			}
+			calls++
+			if inAnyLoop(site.Block()) {
+				inLoop++
+			}
+		})
+		returnsExif := false
+		for i := 0; i < f.Signature.Results().Len(); i++ {
+			if strings.HasSuffix(f.Signature.Results().At(i).Type().String(), "exif2.Exif") {
+				returnsExif = true
+			}
+		}
+		if calls > 0 && returnsExif {
+			n++
+			key := fnName(f) + " | walks the top-level boxes in a loop"
+			if inLoop == calls {
+				r.OK("TOPWALK", key, p.posStr(f.Pos()), "ReadMetadata is called in a loop")
+			} else {
+				r.Bad("TOPWALK", key, p.posStr(f.Pos()), fmt.Sprintf("ReadMetadata is called %d time(s) in a row, not in a loop: the payload is found only when it sits in one of the first %d top-level boxes after ftyp, so any box in front of it (free, a second uuid) costs the file its metadata", calls, calls))
+			}
+		}
+		// HEIF by signature search
+		if f.Name() == "DecodeHeif" {
+			n++
+			key := fnName(f) + " | locates the payload through the container"
+			bad := ""
+			eachCall(f, func(site ssa.CallInstruction) {
+				if sc := site.Common().StaticCallee(); sc != nil && (fnName(sc) == "tiff.ScanTiffHeader" || sc.Name() == "DecodeTiff") {
+					bad = "the HEIF entry point hands the file to " + fnName(sc) + ": the Exif payload is looked for by searching the whole container for a TIFF signature, so the bytes II*\\0 or MM\\0* in any earlier box are taken for the header"
+				}
+			})
+			if bad != "" {
+				r.Bad("HEIFSCAN", key, p.posStr(f.Pos()), bad)
+			} else {
+				r.OK("HEIFSCAN", key, p.posStr(f.Pos()), "no signature search over the container")
+			}
+		}
+	}
+	if n == 0 {
+		r.Undecided("TOPWALK", "root package | ISOBMFF entry points", "-", "none found (anchor lost)")
+	}
 }
